@@ -670,31 +670,61 @@ Proof.
     rewrite (Hfullk eq_refl). rewrite Hr. left; reflexivity.
 Qed.
 
-(* ------------------------------------------------------------------ batch caches *)
+(* ------------------------------------------------------------------ batch caches, key in force *)
 Lemma wf_group_set_sk : forall c sk g, wf_group c g -> wf_group (set_sk c sk) g.
 Proof. intros c sk g H. exact H. Qed.
 
-(* measurement names identify measurements inside a batch *)
+(* the write path and the read path agree on which shard-key definition is in force, for every catalogue: database with or
+   without a key, measurement with any key history, every group *)
+Lemma key_in_force_agree : forall m gid, wkey_in_force m gid = rkey_in_force m gid.
+Proof. intros m gid. unfold wkey_in_force, rkey_in_force, db_key_read. destruct (m_db m); reflexivity. Qed.
+
+(* a database-level key wins over every key of the measurement, on both sides *)
+Lemma db_key_wins : forall m gid k ks, m_db m = k :: ks ->
+  wkey_in_force m gid = Some (k :: ks) /\ rkey_in_force m gid = Some (k :: ks) /\ c_typ (cfg_at m gid) = Hash.
+Proof.
+  intros m gid k ks H. unfold wkey_in_force, rkey_in_force, db_key_read, cfg_at, cfg_with, base_cfg. rewrite H. repeat split.
+Qed.
+Lemma no_db_key : forall m gid, m_db m = [] ->
+  wkey_in_force m gid = sk_scan (m_vers m) gid /\ rkey_in_force m gid = sk_scan (m_vers m) gid /\
+  c_typ (cfg_at m gid) = c_typ (m_cfg m).
+Proof.
+  intros m gid H. unfold wkey_in_force, rkey_in_force, db_key_read, cfg_at, cfg_with, base_cfg. rewrite H. repeat split.
+Qed.
+
+(* measurement names identify measurements inside a batch (one database: one database-level key) *)
 Definition consistent (rows : list brow) : Prop :=
-  forall r1 r2, In r1 rows -> In r2 rows -> c_mst (m_cfg (r_m r1)) = c_mst (m_cfg (r_m r2)) -> m_vers (r_m r1) = m_vers (r_m r2).
+  forall r1 r2, In r1 rows -> In r2 rows -> c_mst (m_cfg (r_m r1)) = c_mst (m_cfg (r_m r2)) ->
+                m_vers (r_m r1) = m_vers (r_m r2) /\ m_db (r_m r1) = m_db (r_m r2).
 Definition no_drop (rows : list brow) : Prop := forall r, In r rows -> r_kind r = RRoute.
 (* the remembered shard key is the one in force for the remembered measurement and group *)
 Definition cache_inv (all : list brow) (st : bstate) : Prop :=
   forall n g, b_mst st = Some n -> b_sg st = Some g ->
-  forall r, In r all -> c_mst (m_cfg (r_m r)) = n -> sk_scan (m_vers (r_m r)) (g_id g) = b_sk st.
+  forall r, In r all -> c_mst (m_cfg (r_m r)) = n -> wkey_in_force (r_m r) (g_id g) = b_sk st.
 
 Lemma cache_inv_empty : forall all, cache_inv all b_empty.
 Proof. intros all n g H. discriminate. Qed.
+
+Lemma base_cfg_mst : forall m, c_mst (base_cfg m) = c_mst (m_cfg m).
+Proof. intros m. unfold base_cfg. destruct (m_db m); reflexivity. Qed.
+Lemma base_cfg_groups : forall m, c_groups (base_cfg m) = c_groups (m_cfg m).
+Proof. intros m. unfold base_cfg. destruct (m_db m); reflexivity. Qed.
+Lemma base_cfg_tagkeys : forall m, c_tagkeys (base_cfg m) = c_tagkeys (m_cfg m).
+Proof. intros m. unfold base_cfg. destruct (m_db m); reflexivity. Qed.
+
+Lemma wkey_in_force_ext : forall m1 m2 gid, m_vers m1 = m_vers m2 -> m_db m1 = m_db m2 ->
+  wkey_in_force m1 gid = wkey_in_force m2 gid.
+Proof. intros m1 m2 gid H1 H2. unfold wkey_in_force. rewrite H1, H2. reflexivity. Qed.
 
 Lemma batch_step_transparent : forall all st r,
   consistent all -> In r all -> r_kind r = RRoute -> cache_inv all st ->
   batch_step hash true st r = batch_step hash false st r /\ cache_inv all (fst (batch_step hash false st r)).
 Proof.
-  intros all st r Hc Hin Hk Hinv. unfold batch_step. rewrite Hk.
+  intros all st r Hc Hin Hk Hinv. unfold batch_step. rewrite Hk. rewrite !base_cfg_mst, !base_cfg_groups.
   destruct (pick_group (b_sg st) (c_groups (m_cfg (r_m r))) (p_time (r_p r))) as [g|] eqn:Ep.
   - assert (Hsk : (if true && (match b_sg st with Some g0 => g_contains g0 (p_time (r_p r)) | None => false end && b_asis st) &&
                       match b_mst st with Some n => str_eqb n (c_mst (m_cfg (r_m r))) | None => false end
-                   then b_sk st else sk_scan (m_vers (r_m r)) (g_id g)) = sk_scan (m_vers (r_m r)) (g_id g)).
+                   then b_sk st else wkey_in_force (r_m r) (g_id g)) = wkey_in_force (r_m r) (g_id g)).
     { destruct (b_sg st) as [g0|] eqn:Eg; simpl; auto.
       destruct (g_contains g0 (p_time (r_p r))) eqn:Ec; simpl; auto.
       destruct (b_asis st); simpl; auto.
@@ -704,10 +734,10 @@ Proof.
       symmetry. apply (Hinv n g Em Eg r Hin). auto. }
     rewrite Hsk. simpl (false && _ && _). cbv iota. split; [reflexivity|].
     unfold cache_inv.
-    destruct (sk_scan (m_vers (r_m r)) (g_id g)) as [k|] eqn:Es;
-      [destruct (wkey (set_sk (m_cfg (r_m r)) k) (r_p r))|]; cbn [fst b_mst b_sg b_sk];
+    destruct (wkey_in_force (r_m r) (g_id g)) as [k|] eqn:Es;
+      [destruct (wkey (set_sk (base_cfg (r_m r)) k) (r_p r))|]; cbn [fst b_mst b_sg b_sk];
       intros n g' Hn Hg r' Hin' Hname; injection Hn as Hn; injection Hg as Hg; subst n g';
-      rewrite (Hc r' r Hin' Hin Hname); auto.
+      destruct (Hc r' r Hin' Hin Hname) as [Hv Hd]; rewrite (wkey_in_force_ext _ _ _ Hv Hd); auto.
   - split; [reflexivity|]. unfold cache_inv. cbn [fst b_mst b_sg b_sk]. intros n g' _ Hg. discriminate.
 Qed.
 
@@ -722,32 +752,33 @@ Proof.
 Qed.
 
 (* without the shard-key cache a batch row is routed like a single row, in the remembered group or the catalogue's, by
-   the shard key in force for its own measurement and that group *)
+   the shard key in force (database's, else the measurement's for that group) - which is the key the read side uses *)
 Theorem batch_uncached_is_route_proof : forall st r g s,
   snd (batch_step hash false st r) = Some (g, s) ->
   r_kind r = RRoute /\ pick_group (b_sg st) (c_groups (m_cfg (r_m r))) (p_time (r_p r)) = Some g /\
-  sk_scan (m_vers (r_m r)) (g_id g) <> None /\ route_in hash (cfg_at (r_m r) (g_id g)) g (r_p r) = Some s.
+  wkey_in_force (r_m r) (g_id g) <> None /\ route_in hash (cfg_at (r_m r) (g_id g)) g (r_p r) = Some s.
 Proof.
-  intros st r g s. unfold batch_step. destruct (r_kind r); simpl; [|discriminate|discriminate].
+  intros st r g s. unfold batch_step. rewrite !base_cfg_mst, !base_cfg_groups. destruct (r_kind r); simpl; [|discriminate|discriminate].
   destruct (pick_group (b_sg st) (c_groups (m_cfg (r_m r))) (p_time (r_p r))) as [g0|] eqn:Ep; simpl; [|discriminate].
-  destruct (sk_scan (m_vers (r_m r)) (g_id g0)) as [k|] eqn:Es; simpl; [|discriminate].
-  destruct (wkey (set_sk (m_cfg (r_m r)) k) (r_p r)) as [ps|] eqn:Ew; simpl; [|discriminate].
-  destruct (route_in hash (set_sk (m_cfg (r_m r)) k) g0 (r_p r)) as [s0|] eqn:Er; [|discriminate].
+  destruct (wkey_in_force (r_m r) (g_id g0)) as [k|] eqn:Es; simpl; [|discriminate].
+  destruct (wkey (set_sk (base_cfg (r_m r)) k) (r_p r)) as [ps|] eqn:Ew; simpl; [|discriminate].
+  destruct (route_in hash (set_sk (base_cfg (r_m r)) k) g0 (r_p r)) as [s0|] eqn:Er; [|discriminate].
   intros H. inversion H; subst. repeat split; auto.
   - rewrite Es; discriminate.
-  - unfold cfg_at. rewrite Es. exact Er.
+  - unfold cfg_at, cfg_with. rewrite <- key_in_force_agree, Es. exact Er.
 Qed.
 
 Theorem batch_prune_sound_proof : forall v st r g s cond,
   v_or v = true -> v_reset v = true ->
   (v_and v = true \/ match cond with Some e => parser_image e | None => True end) ->
-  wf_group (m_cfg (r_m r)) g -> wf_point (r_p r) ->
+  wf_group (base_cfg (r_m r)) g -> wf_point (r_p r) ->
   snd (batch_step hash false st r) = Some (g, s) -> eval_cond (m_cfg (r_m r)) cond (r_p r) = true ->
   In s (target_group hash v (cfg_at (r_m r) (g_id g)) g cond).
 Proof.
   intros v st r g s cond Hor Hres Hok Hwf Hwp H Hev.
   apply batch_uncached_is_route_proof in H as [_ [_ [_ Hr]]].
   eapply target_group_sound; eauto.
+  unfold eval_cond in *. unfold cfg_at, cfg_with. cbn [c_tagkeys set_sk]. rewrite base_cfg_tagkeys. exact Hev.
 Qed.
 
 Lemma target_m_in : forall v m tmin tmax cond g s,
@@ -757,6 +788,11 @@ Proof.
   intros. unfold target_m. apply in_flat_map. exists g. split; auto.
   apply (in_map (fun s0 => (g_id g, s_id s0))); auto.
 Qed.
+
+(* today's rule for the key in force IS mapMstShards with the per-group key *)
+Lemma target_m_by_rkey : forall v m tmin tmax cond,
+  target_m_by hash rkey_in_force v m tmin tmax cond = target_m hash v true m tmin tmax cond.
+Proof. intros. reflexivity. Qed.
 End Loop.
 
 (* ------------------------------------------------------------------ shard-group spans *)
